@@ -95,6 +95,11 @@ def sel_of(path_latin):
 # ----------------------------------------------------------------------------
 # Coq literal helpers
 # ----------------------------------------------------------------------------
+def ostr(x):
+    """option str literal with its type spelled out (a shard may contain only None)"""
+    return "(@None str)" if x is None else "(Some %s)" % coq_str(x)
+
+
 def coq_pairs(name, pairs):
     return "Definition %s : list (str * str) := [%s].\n" % (
         name, "; ".join("(%s, %s)" % (coq_str(k), coq_str(v)) for k, v in pairs))
@@ -262,15 +267,18 @@ def run(tier):
         return sorted(vs)
 
     names = []
-    for e in exts:
+    for ei, e in enumerate(exts):
         for v in variants(e):
             names.append("/dir.d/name" + v)
-        for enc in encs[1:]:
-            names.append("/dir.d/name" + e + enc)
-            if tier == "thorough":
+        if tier == "thorough":
+            for enc in encs[1:]:
+                names.append("/dir.d/name" + e + enc)
                 for v in variants(e):
                     names.append("/x" + v + enc)
                     names.append("/x" + v + enc.upper())
+        else:                                   # every extension with two of the encodings, rotating
+            for k in (0, 3):
+                names.append("/dir.d/name" + e + encs[1 + (ei + k) % (len(encs) - 1)])
     for s in sufs:
         for v in variants(s):
             names += ["/a" + v, "/a.b" + v, "/a" + v + ".gz"]
@@ -286,13 +294,20 @@ def run(tier):
             raise RuntimeError(r["err"] + "\n" + r.get("tb", ""))
     guess_out, fm_out = [r["res"] for r in res]
     guess_of = {n: tuple(g) for n, g in zip(names, guess_out)}
-    pre = tables_pre(tables)
-    cases = ["(%s, (%s, %s))" % (coq_str(n), coq_opt(t, coq_str), coq_opt(e, coq_str))
-             for n, (t, e) in zip(names, guess_out)]
-    m4, e4, n4 = coq_eval("C04", "k_guess", "Lib.Str Corr.K04", f"chk_guess {TARGS4}", cases, shard=1200, pre=pre)
-    cases = ["(%s, (%s, (%s, (%s, %s))))" % (coq_str(n), coq_opt(m, coq_str), coq_opt(e, coq_str), coq_opt(em, coq_str),
-                                             coq_opt(ty, coq_str)) for n, (m, e, em, ty) in zip(names, fm_out)]
-    m5, e5, n5 = coq_eval("C04", "k_filemime", "Lib.Str Corr.K04", f"chk_filemime {TARGS}", cases, shard=1200, pre=pre)
+    terr = [coqmulti.compile_module("C04", f"C04T_{c}", "Lib.Str", tables_pre(t))
+            for c, t in (("default", tables), ("full", tables_full))]
+    pre = "Require Import C04T_default."
+    cases = ["(%s, (%s, %s))" % (coq_str(n), ostr(t), ostr(e)) for n, (t, e) in zip(names, guess_out)]
+    m4, e4, n4 = coq_eval("C04", "k_guess", "Lib.Str Corr.K04", f"chk_guess {TARGS4}", cases, shard=600, pre=pre)
+    cases = ["(%s, (%s, (%s, (%s, %s))))" % (coq_str(n), ostr(m), ostr(e), ostr(em), ostr(ty))
+             for n, (m, e, em, ty) in zip(names, fm_out)]
+    if tier == "quick":
+        cases = [c for i, c in enumerate(cases) if i % 3 == 0 or not names[i].startswith(("/dir.d/", "/x"))]
+        fm_idx = [i for i in range(len(names)) if i % 3 == 0 or not names[i].startswith(("/dir.d/", "/x"))]
+    else:
+        fm_idx = list(range(len(names)))
+    m5, e5, n5 = coq_eval("C04", "k_filemime", "Lib.Str Corr.K04", f"chk_filemime {TARGS}", cases, shard=600, pre=pre)
+    m5 = [fm_idx[i] for i in m5]
     for n, g in zip(names, guess_out):
         chk.count(("mime", n), nontrivial=(g[0] is not None or g[1] is not None))
     if not (mapping_ok and keys_ascii):
@@ -502,11 +517,7 @@ def run(tier):
     tick("oracle")
     # ---- K: the same responses against the model, inside Coq ----
     IMPORTS = "Lib.Str Model.Copy Model.Wml Model.Mime Corr.K04"
-    kerrs = []
-    for cfgname, t in (("default", tables), ("full", tables_full)):
-        err = coqmulti.compile_module("C04", f"C04T_{cfgname}", "Lib.Str", tables_pre(t))
-        if err:
-            kerrs.append(err)
+    kerrs = [e for e in terr if e]
     byfile = {}       # (cfg, path) -> list of records
     for r in records:
         byfile.setdefault((r["cfg"], r["path"]), []).append(r)
